@@ -1,0 +1,41 @@
+//! Verification probes for the private pieces of the I/O loop (compiled only with
+//! `--cfg amiquip_verif`). Each probe wraps the real type and exposes its operations with
+//! plain-data arguments and results.
+
+use super::channel_slots::ChannelSlots;
+use crate::Result;
+
+/// The real `ChannelSlots`, with unit payloads.
+pub struct SlotsProbe(ChannelSlots<()>);
+
+impl SlotsProbe {
+    pub fn new(channel_max: u16) -> SlotsProbe {
+        let mut slots = ChannelSlots::new();
+        slots.set_channel_max(channel_max);
+        SlotsProbe(slots)
+    }
+
+    pub fn insert(&mut self, channel_id: Option<u16>) -> Result<u16> {
+        self.0.insert(channel_id, |id| Ok(((), id)))
+    }
+
+    pub fn remove(&mut self, channel_id: u16) -> bool {
+        self.0.remove(channel_id).is_some()
+    }
+
+    pub fn drain(&mut self) -> Vec<u16> {
+        let mut ids: Vec<u16> = self.0.drain().map(|(id, ())| id).collect();
+        ids.sort_unstable();
+        ids
+    }
+
+    pub fn open_ids(&self) -> Vec<u16> {
+        let mut ids: Vec<u16> = self.0.iter().map(|(id, _)| *id).collect();
+        ids.sort_unstable();
+        ids
+    }
+
+    pub fn is_open(&self, channel_id: u16) -> bool {
+        self.0.get(channel_id).is_some()
+    }
+}
